@@ -374,12 +374,19 @@ pub fn contend_case(prop: &str) -> BoxedStrategy<Case> {
     p.w_get = 14;
     p.w_close = 0;
     p.nevers = false;
-    let inner = prop_oneof![
-        5 => any::<bool>().prop_map(|zero_wait| Inner::Get { zero_wait }),
-        3 => any::<u8>().prop_map(|h| Inner::Return { h }),
-        1 => any::<u8>().prop_map(|h| Inner::Take { h }),
-        1 => Just(Inner::Status),
-    ];
+    let w_close = if prop == "C06" { 6 } else { 0 };
+    let inner = proptest::strategy::Union::new_weighted(
+        vec![
+            (5u32, any::<bool>().prop_map(|zero_wait| Inner::Get { zero_wait }).boxed()),
+            (3, any::<u8>().prop_map(|h| Inner::Return { h }).boxed()),
+            (1, any::<u8>().prop_map(|h| Inner::Take { h }).boxed()),
+            (1, Just(Inner::Status).boxed()),
+            (w_close, Just(Inner::Close).boxed()),
+        ]
+        .into_iter()
+        .filter(|(w, _)| *w > 0)
+        .collect::<Vec<_>>(),
+    );
     let contend = (pred(), inner).prop_map(|(pred, inner)| Step::Contend { pred, inner });
     (case(p), prop::collection::vec((any::<u8>(), contend), 1..=2))
         .prop_map(|(mut c, ins)| {
